@@ -18,14 +18,18 @@ THEOREMS = {
     "C04": _gt("errEnum_eq", "limits_eq", "buildOpts_eq"),
     "C05": _gt("errEnum_eq"),
     "C06": _gt("init_sets_all", "init_fields", "limits_eq", "lenFilter_eq"),
-    "C07": _gt("errEnum_eq", "tldTypeEnum_eq"),
+    "C07": _gt("errEnum_eq", "tldTypeEnum_eq") + [("Eav.Props.C07", "Eav.Props.C07." + n) for n in
+            ("tldScan_eq_lookup", "isTld_eq_lookup", "whole_label", "case_insensitive", "isTld_eq_csv")] +
+           [("Eav.Props.C11", "Eav.Props.C11." + n) for n in ("table_eq_gen", "lengths_and_types", "names_lower_alabel", "names_distinct")],
     "C08": _gt("errEnum_eq", "tldTypeEnum_eq", "tldBitEnum_eq", "init_values"),
     "C09": _gt("reserved_eq", "example_eq", "exampleLabel_eq", "lenFilter_eq", "tldTypeEnum_eq"),
     "C10": _gt("errEnum_eq"),
-    "C11": _gt("tldTypeEnum_eq"),
+    "C11": _gt("tldTypeEnum_eq") + [("Eav.Props.C11", "Eav.Props.C11." + n) for n in
+            ("table_eq_gen", "names_sorted", "names_distinct", "names_lower_alabel", "lengths_and_types", "same_rows", "ascii_rows_equal",
+             "types_equal", "domains_txt_eq")] + [("Eav.Props.C07", "Eav.Props.C07.isTld_eq_csv")],
     "C12": _gt("errEnum_eq", "specials_eq"),
     "C13": _gt("init_values", "setup_eq", "init_sets_all"),
-    "C14": _gt("no_mutable_globals", "externals_mt_safe"),
+    "C14": _gt("no_mutable_globals", "externals_mt_safe") + [("Eav.Props.C14", "Eav.Props.C14.sched_indep"), ("Eav.Props.C14", "Eav.Props.C14.shared_is_empty")],
     "C15": _gt("errEnum_eq", "errors_tags", "errors_runtime", "errors_nonempty", "errors_distinct", "setup_eq"),
     "C16": _gt("errEnum_eq", "tldTypeEnum_eq"),
     "C17": _gt("buildOpts_eq", "specials_eq"),
@@ -1128,18 +1132,178 @@ def c10(ctx):
 RULES["C10"] = "distinct domains: every IDN TLD of the table in U- and A-form, 1-4 labels from eight scripts, malformed UTF-8 / disallowed code points / hyphen violations / long labels, all-ASCII domains of the C04/C07 generators; the A-label is the one libidn2 produced on this run"
 TRUSTED_EXTRA["C10"] = ["libidn2's IDNA2008 conformance is an oracle: hypotheses H_same (conversion is idempotent on A-labels) and H_ascii (ASCII domains convert to their lower-case form) are validated on every recorded conversion, not proved"]
 
+
+# ===================================================================== C11
+def c11(ctx):
+    # (1) the two generator programs, executed on the shipped CSVs (Text::CSV stand-in), output compared with the shipped files
+    d = ctx.scr.copy_repo("gen")
+    env = dict(os.environ, TZ="UTC")
+    inc = "-I" + os.path.join(VERIF, "shims/perl")
+    orig = {f: open(os.path.join(d, f), "rb").read() for f in ("src/auto_tld.c", "include/eav/auto_tld.h", "data/tld-domains.txt")}
+    p1 = subprocess.run(["perl", inc, "util/gentld.pl", "include/eav/auto_tld.h", "src/auto_tld.c", "data/punycode.csv"], cwd=d, env=env, stdout=subprocess.PIPE, stderr=subprocess.STDOUT)
+    p2 = subprocess.run(["perl", inc, "util/gen_utf8_pass_test.pl", "data/tld-domains.txt", "data/raw.csv"], cwd=d, env=env, stdout=subprocess.PIPE, stderr=subprocess.STDOUT)
+    ctx.evals += 2
+    if p1.returncode != 0 or p2.returncode != 0:
+        ctx.S("a generator program fails on the shipped CSV files", op="perl util/gentld.pl / gen_utf8_pass_test.pl", output=(p1.stdout + p2.stdout).decode(errors="replace")[-800:])
+    else:
+        for f in orig:
+            new = open(os.path.join(d, f), "rb").read().split(b"\n")
+            old = orig[f].split(b"\n")
+            if f == "src/auto_tld.c":
+                new = [x for x in new if not x.startswith(b"/* this file was auto-generated at")]
+                old = [x for x in old if not x.startswith(b"/* this file was auto-generated at")]
+            ctx.evals += len(old)
+            if new != old:
+                diffs = [(i, a, b) for i, (a, b) in enumerate(zip(old, new)) if a != b][:3]
+                ctx.S("re-running the generators on the shipped CSV files does not reproduce " + f, op="regenerate " + f,
+                      first_differences=[(i, a.decode(errors="replace"), b.decode(errors="replace")) for i, a, b in diffs], lines=(len(old), len(new)))
+            else:
+                ctx.nontrivial.update("%s:%d" % (f, i) for i in range(len(old)))
+    # (2) every row looked up in the real library, every domain of tld-domains.txt and raw.csv validated
+    tbl = table_names(ctx)
+    c = ctx.K("rows", "default", ["T %s" % hx(r[0]) for r in tbl] + ["T %s" % hx(r[0].upper()) for r in tbl], nontrivial=lambda op, ln: True)
+    sp = ctx.spec(["sT %s" % hx(r[0]) for r in tbl] * 2)
+    for r, cl, sl in zip(tbl + tbl, c, sp):
+        if cl.split(" ")[1] != sl.split(" ")[1]:
+            ctx.S("a row of data/punycode.csv is not found with the class the generator documents", op="T %s" % hx(r[0]), impl=cl, csv=sl)
+    doms = open(os.path.join(d, "data/tld-domains.txt"), "rb").read().split(b"\n")
+    doms = [x for x in doms if x]
+    ce = ctx.K("tld-domains.txt", "default", ["E 6531 1 %s" % hx(b"a@" + x) for x in doms], nontrivial=lambda op, ln: True)
+    for x, cl in zip(doms, ce):
+        rc = int(fields(cl)[1])
+        if not (1 <= rc <= 9):
+            ctx.S("a domain of data/tld-domains.txt is not classified by the library", op="E 6531 1 %s" % hx(b"a@" + x), impl=cl)
+RULES["C11"] = "lines of the three regenerated files compared with the shipped ones, all 1591 rows looked up in lower and upper case, every domain of tld-domains.txt validated in mode 6531"
+TRUSTED_EXTRA["C11"] = ["the Perl interpreter and shims/perl/Text/CSV.pm (40-line stand-in for Text::CSV, which is not installed) for the run of the two generator programs; that run is a test of the generators, the theorems are about their artefacts"]
+
+
+# ===================================================================== C14
+def c14(ctx):
+    addrs = [s for s in diag_corpus(ctx)[:: (40 if ctx.tier == "quick" else 8)] if 0 not in s]
+    fn = os.path.join(ctx.scr.dir, "mt_addrs.txt")
+    with open(fn, "w") as f:
+        f.write("\n".join(hx(a) for a in addrs) + "\n")
+    env = dict(os.environ, LC_ALL="C", TSAN_OPTIONS="halt_on_error=0:exitcode=66:report_signal_unsafe=0")
+    runs = [(2, 3), (4, 2), (16, 1)] if ctx.tier == "quick" else [(2, 10), (3, 6), (4, 6), (8, 4), (16, 3)]
+    for nth, rounds in runs:
+        p = subprocess.run([ctx.drive("x:tsan"), fn, str(nth), str(rounds)], stdout=subprocess.PIPE, stderr=subprocess.PIPE, env=env)
+        out = p.stdout.decode(errors="replace")
+        m = re.search(r"calls=(\d+) mismatches=(\d+)", out)
+        calls = int(m.group(1)) if m else 0
+        ctx.evals += calls
+        ctx.nontrivial.update("thr%d:%s" % (nth, hx(a)) for a in addrs)
+        ctx.streams["tsan %d threads x %d rounds" % (nth, rounds)] = dict(ops=calls, k_mismatch=0)
+        if len(ctx.samples) < 6:
+            ctx.samples.append(dict(threads=nth, rounds=rounds, output=out.strip(), address=repr(ctx.rng.choice(addrs))))
+        err = p.stderr.decode(errors="replace")
+        if "ThreadSanitizer: data race" in err or p.returncode == 66:
+            loc = re.findall(r"#0 (\S+) (\S+)", err)[:4]
+            ctx.S("unsynchronised access to shared mutable memory (ThreadSanitizer data race)", op="mt %d threads x %d rounds over %d addresses" % (nth, rounds, len(addrs)),
+                  report=err[:1500], frames=loc)
+        elif m and int(m.group(2)) != 0:
+            ctx.S("a thread obtained an outcome different from the sequential run", op="mt %d threads x %d rounds" % (nth, rounds), output=out)
+        elif p.returncode != 0:
+            ctx.S("threaded run failed", op="mt %d threads" % nth, rc=p.returncode, stderr=err[-800:])
+RULES["C14"] = "validation calls executed by 2-16 concurrent threads (own eav_t each, shared read-only strings, all modes, tld on/off) under ThreadSanitizer, each compared with the single-threaded outcome; distinct = (thread count, address)"
+VARIANTS_OF["C14"] = {"quick": ["x:tsan"], "thorough": ["x:tsan"]}
+TRUSTED_EXTRA["C14"] = ["data races in the compiled code are a runtime fact: ThreadSanitizer (happens-before detector, any conflicting pair it observes, whatever the schedule) covers them; what is proved is schedule-independence of the model whose shared state is read from the object files (objdump: no object in a writable section)"]
+ASSUME["C14"] = ["libidn2 itself is thread-safe (not instrumented)"]
+
+
+# ===================================================================== C06
+def c06(ctx):
+    rng = ctx.rng
+    # (1) every stream under ASan+UBSan, inputs in exact-size heap blocks, eav_t in 0xA5-filled heap memory
+    loc = gen.local_strings("quick", rng, utf8=True)[:: (5 if ctx.tier == "quick" else 1)]
+    dom = gen.domain_strings("quick", rng)[:: (6 if ctx.tier == "quick" else 1)]
+    lit = gen.literal_domains("quick", rng)[:: (3 if ctx.tier == "quick" else 1)]
+    mails = diag_corpus(ctx)[:: (2 if ctx.tier == "quick" else 1)]
+    big = []
+    for n in (1024, 65536):
+        for unit in (b"a", b".", b"a.", b'"', b'\\', b'"a"', b"\xc3\xa9", b"\xff", b" ", b"@", b"[", b"]", b":", b"1.", b"1:", b"-", b"a-", b"\r\n "):
+            u = (unit * (n // len(unit) + 1))[:n]
+            big += [u, u + b"@b.com", b"a@" + u, b"a@" + u + b".com", b"a@[" + u + b"]", b'"' + u + b'"@b.com', b"a@[IPv6:" + u + b"]"]
+    edge = [b"", b"@", b"a@", b"@a", b"a@[", b"a@[]", b"a@]", b'"', b'"@"', b"\\", b".", b"a@.", b"a@-", b"a@a-", b"a@[1", b"a@[1]", b"a@[::]", b"a@[IPv6:]", b"a@[IPv6::]", b"a@[IPv6:::]"]
+    for b0 in range(1, 256):
+        edge += [bytes([b0]), bytes([b0]) + b"@b.com", b"a@" + bytes([b0]), b"a@b" + bytes([b0]), b"a" + bytes([b0]) + b"@b.com", b"a@[" + bytes([b0]) * 8 + b"]", b"a@b." + bytes([b0]) + b"c",
+                 b'"' + bytes([b0]) + b'"@b.com', b"a@[1.2.3.4" + bytes([b0]), b"a@[IPv6:1::" + bytes([b0]) + b"]"]
+    for v in ctx.drives:
+        if v.startswith("x:"):
+            continue
+        for m in MODES:
+            ctx.K("local%d" % m, v, ["L %d %s %s" % (m, hx(s), hx(gen.AT)) for s in loc if 0 not in s] + ["L %d %s %s" % (m, hx(s), hx(gen.NUL)) for s in loc[::7] if 0 not in s])
+        ctx.K("domain", v, ["D %s 00" % hx(s) for s in dom if 0 not in s])
+        ctx.K("special", v, ["S %s" % hx(s) for s in dom[::2] if 0 not in s])
+        ctx.K("tld", v, ["T %s" % hx(s) for s in dom[::5] if 0 not in s])
+        for m in MODES:
+            for t in (0, 1):
+                ctx.K("api%d" % m, v, ["P %d %d %d %s" % (m, t, 760, hx(s)) for s in mails + edge + [b"a@" + d for d in lit] if 0 not in s], nontrivial=lambda op, ln: fields(ln)[2] not in ("3", "16"))
+                ctx.K("big%d" % m, v, ["P %d %d %d %s" % (m, t, 760, hx(s)) for s in big], nontrivial=lambda op, ln: True)
+    hg = HistGen(rng)
+    scripts = [hg.random_history(n, H_ADDRS + [b"a@" + d for d in lit[:40]], inject=True) for n in (5, 20, 100) for _ in range(30 if ctx.tier == "quick" else 300)]
+    ctx.K("history", "default", ["H " + sc for sc in scripts], nontrivial=lambda op, ln: True)
+    # model faults are violations too: the model reads what the code reads
+    for k in list(ctx.k_fail):
+        if "FAULT" in (k.get("model") or "") and "FAULT" not in (k.get("impl") or ""):
+            ctx.note("model fault without implementation fault on %s" % k["op"][:80])
+    # (2) work grows linearly: instruction counts (callgrind) for n, 2n, 4n per input family; deterministic, no wall-clock
+    sizes = [2048, 4096, 8192] if ctx.tier == "quick" else [4096, 8192, 16384, 32768, 65536]
+    fams = {"atom": lambda n: b"a" * min(n, 64) + b"@" + (b"a" * 60 + b".") * (n // 61), "dots": lambda n: b"a@" + b"a." * (n // 2),
+            "quoted": lambda n: b'"' + b"\\a" * (n // 2) + b'"@b.com', "utf8": lambda n: "é".encode() * (n // 2) + b"@b.com",
+            "ipv6": lambda n: b"a@[IPv6:" + b"1:" * (n // 2) + b"]", "ipv4": lambda n: b"a@[" + b"1." * (n // 2) + b"]",
+            "hyphen": lambda n: b"a@" + b"a-" * (n // 2) + b"a.com", "labels": lambda n: b"a@" + b".".join([b"x"] * (n // 2)) + b".test"}
+    lin = {}
+    for fam, mk in fams.items():
+        counts = []
+        for n in sizes:
+            fi = os.path.join(ctx.scr.dir, "cg_%s_%d.in" % (fam, n))
+            with open(fi, "w") as f:
+                f.write("\n".join("E %d 1 %s" % (m, hx(mk(n))) for m in MODES) + "\n")
+            cgout = fi + ".cg"
+            p = subprocess.run(["valgrind", "--tool=callgrind", "--callgrind-out-file=" + cgout, "--toggle-collect=is_*_email", ctx.drive("x:plain"), fi, fi + ".out", fi + ".lean"],
+                               stdout=subprocess.PIPE, stderr=subprocess.PIPE)
+            ir = None
+            if os.path.exists(cgout):
+                for line in open(cgout):
+                    if line.startswith("summary:") or line.startswith("totals:"):
+                        ir = int(line.split()[1]); break
+            counts.append(ir)
+        lin[fam] = counts
+        ctx.evals += len(sizes) * 4
+        for a, b, n in zip(counts, counts[1:], sizes[1:]):
+            if a and b and b > 2.3 * a + 20000:
+                ctx.S("work is not linear in the input length (instructions more than double when the length doubles)", op="E * 1 %s..." % fam, family=fam, sizes=sizes, instructions=counts)
+                break
+    ctx.extra_cov["instructions_per_family"] = {k: dict(zip(map(str, sizes), v)) for k, v in lin.items()}
+    # (3) memcheck on a slice: uninitialised reads, leaks, also through libidn2 (thorough)
+    if ctx.tier != "quick":
+        ops = ["P %d %d %d %s" % (m, t, 760, hx(s)) for m in MODES for t in (0, 1) for s in (mails[::25] + edge[::40])] + ["H " + sc for sc in scripts[::10]]
+        fi = os.path.join(ctx.scr.dir, "mc.in")
+        open(fi, "w").write("\n".join(ops) + "\n")
+        p = subprocess.run(["valgrind", "--error-exitcode=77", "--leak-check=full", "--track-origins=yes", "-q", ctx.drive("x:plain"), fi, fi + ".out", fi + ".lean"],
+                           stdout=subprocess.PIPE, stderr=subprocess.PIPE)
+        ctx.evals += len(ops)
+        if p.returncode == 77:
+            ctx.S("valgrind memcheck reports an error (uninitialised read, invalid access or leak)", op="memcheck slice of %d ops" % len(ops), report=p.stderr.decode(errors="replace")[:2000])
+RULES["C06"] = "distinct ops executed under ASan+UBSan+LSan with exact-size heap inputs and a poisoned heap eav_t: every byte value at every structural position, 1 KiB and 64 KiB inputs of 18 shapes x 7 placements, corpora of the other properties, call histories with injected IDN faults; callgrind instruction counts for doubling lengths"
+VARIANTS_OF["C06"] = {"quick": ["default", "extra", "x:plain"], "thorough": ["default", "extra", "all3", "x:plain"]}
+TRUSTED_EXTRA["C06"] = ["what the compiled C actually reads and writes is a runtime fact: ASan/UBSan/LSan on every correspondence stream, valgrind memcheck and callgrind carry that half; the model-level no-fault statements are about the model"]
+
 PROPS = collections.OrderedDict()
 PROPS["C01"] = c01
 PROPS["C02"] = c02
 PROPS["C03"] = c03
 PROPS["C04"] = c04
 PROPS["C05"] = c05
+PROPS["C06"] = c06
 PROPS["C07"] = c07
 PROPS["C08"] = c08
 PROPS["C09"] = c09
 PROPS["C10"] = c10
+PROPS["C11"] = c11
 PROPS["C12"] = c12
 PROPS["C13"] = c13
+PROPS["C14"] = c14
 PROPS["C15"] = c15
 PROPS["C16"] = c16
 PROPS["C17"] = c17
